@@ -52,13 +52,14 @@ package xixi_kv
 //@ func (*xixi_kv.DB).sync
 //@   io_effect
 //@   props C01 C13 C17 C03
-//@   requires [locked] db.mu == nil || db.mu.heldW
+//@   requires [locked] db.mu == nil || db.mu.heldW || unshared(db)
 //@   requires [inv]    INV_files(db) && db.activeFile.ID < 4294967295
 //@   ensures [rotated] result == nil ==> INV_files(db) && fresh(db.activeFile) && db.activeFile.ID == old(db.activeFile.ID) + 1 && db.activeFile.ReadWriter.writes == 0 && len(db.activeFile.bufferedWrites) == 0 && arr(db.activeFile.bufferedWrites) == 0 && fresh(db.activeFile.ReadWriter) && fresh(db.activeFile.headerBuf) && has(db.olderFiles, old(db.activeFile.ID)) && db.olderFiles[old(db.activeFile.ID)] == old(db.activeFile)
 //@   ensures [rotate-flushed] result == nil ==> old(db.activeFile).ReadWriter.durable == old(db.activeFile).ReadWriter.size
 //@   ensures [older-kept] forall id :: {db.olderFiles[id]} id != old(db.activeFile.ID) ==> has(db.olderFiles, id) == old(has(db.olderFiles, id)) && db.olderFiles[id] == old(db.olderFiles[id])
 //@   ensures [older-dom-kept] forall id :: {old(indom(db.olderFiles, id))} old(has(db.olderFiles, id)) ==> has(db.olderFiles, id)
 //@   ensures [older-only-rotated] forall id :: {indom(db.olderFiles, id)} has(db.olderFiles, id) ==> old(has(db.olderFiles, id)) || id == old(db.activeFile.ID)
+//@   ensures [only-the-sealed-file-enters] has(db.olderFiles, old(db.activeFile.ID)) ==> db.olderFiles[old(db.activeFile.ID)] == old(db.activeFile)
 //@   ensures [counter] result == nil ==> db.bytesWrite == 0
 //@   ensures [err-keeps-active] result != nil ==> db.activeFile == old(db.activeFile)
 //@   ensures [foreign-errors] !engineErr(result)
@@ -386,7 +387,7 @@ package xixi_kv
 //@   unshared db
 //@   requires [db] db.olderFiles != nil
 //@   ensures [foreign-errors] result1 == ErrDataDirectoryCorrupted || !engineErr(result1)
-//@   ensures [files] result1 == nil ==> (len(result0) == 0 ==> db.activeFile == old(db.activeFile)) && (len(result0) > 0 ==> db.activeFile != nil && fresh(db.activeFile) && INV_df(db.activeFile) && !db.activeFile.closed && db.activeFile.kind == datafile.DataFileSuffix && len(db.activeFile.bufferedWrites) == 0 && owned(db.activeFile.headerBuf) && fresh(db.activeFile.headerBuf)) && olderIds(db) && olderInv(db) && olderFlushed(db)
+//@   ensures [files] result1 == nil ==> (len(result0) == 0 ==> db.activeFile == old(db.activeFile)) && (len(result0) > 0 ==> db.activeFile != nil && fresh(db.activeFile) && INV_df(db.activeFile) && !db.activeFile.closed && db.activeFile.kind == datafile.DataFileSuffix && len(db.activeFile.bufferedWrites) == 0 && owned(db.activeFile.headerBuf) && fresh(db.activeFile.headerBuf)) && olderIds(db) && olderInv(db) && olderFlushed(db) && olderSep(db) && (db.activeFile != nil ==> db.activeFile.ID < 4294967294 && arr(db.activeFile.headerBuf) != arr(db.logRecordHeader))
 //@   ensures [opened-files-are-new] (forall id :: {db.olderFiles[id]} has(db.olderFiles, id) ==> db.olderFiles[id] != nil && fresh(db.olderFiles[id]) && db.olderFiles[id].ReadWriter != nil && fresh(db.olderFiles[id].ReadWriter)) && (db.activeFile == old(db.activeFile) || (db.activeFile != nil && fresh(db.activeFile) && db.activeFile.ReadWriter != nil && fresh(db.activeFile.ReadWriter)))
 //@   ensures [ids] result1 == nil ==> (forall i :: {result0[i]} 0 <= i && i < len(result0) ==> result0[i] == db.activeFile.ID || has(db.olderFiles, result0[i]))
 //@   ensures [merge-dir-untouched] forall p :: {fs[p]} fnameDir(p) != db.options.DirPath ==> fs[p] == old(fs)[p]
@@ -444,17 +445,21 @@ package xixi_kv
 //@   modifies db.totalSize, db.reclaimSize, db.index.model, db.index.count, db.index.live
 
 //@ func (*xixi_kv.DB).loadIndexFromDataFiles
-//@   props C02 C04 C17 C12 C16
+//@   props C02 C04 C17 C12 C16 C03
+//@   io_effect
 //@   unshared db
-//@   requires [db]    INV_index(db.index) && db.activeFile != nil && db.olderFiles != nil && INV_df(db.activeFile) && !db.activeFile.closed && db.activeFile.kind == datafile.DataFileSuffix && olderInv(db) && olderFlushed(db)
+//@   requires [db]    INV_index(db.index) && INV_files(db) && db.activeFile.ID < 4294967295
 //@   requires [ids]   forall i :: {fileIds[i]} 0 <= i && i < len(fileIds) ==> fileIds[i] == db.activeFile.ID || has(db.olderFiles, fileIds[i])
 //@   requires [acc]   ACC(db) && db.totalSize == 0 || (ACC(db) && db.totalSize <= 4611686018427387904 && db.reclaimSize <= 4611686018427387904)
 //@   ensures [acc]    result == nil ==> ACC(db)
+//@   ensures [files]  result == nil ==> INV_files(db)
+//@   ensures [files-kept-or-rotated] (db.activeFile == old(db.activeFile) || (result == nil && fresh(db.activeFile) && fresh(db.activeFile.ReadWriter) && fresh(db.activeFile.headerBuf))) && (forall id :: {db.olderFiles[id]} has(db.olderFiles, id) ==> (old(has(db.olderFiles, id)) && db.olderFiles[id] == old(db.olderFiles[id])) || (id == old(db.activeFile.ID) && db.olderFiles[id] == old(db.activeFile)))
 //@   ensures [foreign-errors] !engineErr(result)
 //@   at (*xixi_kv.DB).loadIndexFromDataFiles$1 assert [applied-at-its-own-position] arg2 != nil
 //@   at (*xixi_kv.DB).loadIndexFromDataFiles$1 assume [byte-counters-do-not-overflow] db.totalSize <= 6917529027641081856 && db.reclaimSize <= 6917529027641081856
+//@   at (*xixi_kv.DB).sync assert [only-to-seal-a-torn-active-file] tornTail
 //@   content
-//@   modifies db.totalSize, db.reclaimSize, db.index.model, db.index.count, db.index.live
+//@   modifies db.totalSize, db.reclaimSize, db.index.model, db.index.count, db.index.live, db.activeFile, db.olderFiles[*], db.bytesWrite, db.activeFile.ReadWriter.durable
 //@   loop 1
 //@     invariant [acc] ACC(db) && INV_index(db.index) && db.activeFile == old(db.activeFile) && db.olderFiles == old(db.olderFiles) && transactionRecords != nil && fresh(transactionRecords)
 //@     invariant [pending] forall id, j :: {transactionRecords[id][j]} has(transactionRecords, id) && 0 <= j && j < len(transactionRecords[id]) ==> transactionRecords[id][j] != nil && transactionRecords[id][j].Record != nil && transactionRecords[id][j].Pos != nil && transactionRecords[id][j].Record.Type != datafile.LogRecordBatchFinished
@@ -554,3 +559,32 @@ package xixi_kv
 //@   modifies type:index.IndexIterator.heap, type:index.IndexIterator.oldItems, type:index.iterHeap.items, arrays:index.iterator, type:index.mapIterator.curIndex, type:index.skipListIterator.curIndex, type:index.btreeIterator.current, type:index.btreeIterator.isIterable, type:index.mapIterator.values, type:index.skipListIterator.values, type:index.btreeIterator.tree
 //@   loop 1
 //@     invariant [walking] API(db) && iterator != nil && fresh(iterator) && iterator.heap != nil && INV_iter(iterator) && (arr(keys) == 0 || fresh(keys))
+
+// ---------------------------------------------------------------------------------------------
+// Backup (C20): the copy is taken under the write lock, of files whose physical size is their logical
+// size, leaving out nothing but the lock file
+// ---------------------------------------------------------------------------------------------
+//@ pred mmOf(df) = as("*fio.MMap", dyn(df.ReadWriter))
+//@ pred isMapped(df) = isType(df.ReadWriter, "*fio.MMap") && INV_mmap(mmOf(df))
+//@ pred trimmed(df) = mmOf(df).file.fsz == mmOf(df).virtualSize
+
+//@ func utils.CopyDir
+//@   trusted
+//@   io_effect
+//@   ensures [io-error-identity] !engineErr(result)
+//@   modifies nothing
+
+//@ func (*xixi_kv.DB).Backup
+//@   props C20 C09
+//@   io_effect
+//@   requires [api] API(db)
+//@   requires [files-use-the-configured-back-end] db.options.FileIOType == fio.MemoryMap ==> isMapped(db.activeFile) && (forall id :: {db.olderFiles[id]} has(db.olderFiles, id) ==> isMapped(db.olderFiles[id]) && mmOf(db.olderFiles[id]) != mmOf(db.activeFile) && mmOf(db.olderFiles[id]).file != mmOf(db.activeFile).file)
+//@   requires [one-file-object-per-data-file] forall i, j :: {db.olderFiles[i], db.olderFiles[j]} has(db.olderFiles, i) && has(db.olderFiles, j) && i != j ==> mmOf(db.olderFiles[i]) != mmOf(db.olderFiles[j]) && mmOf(db.olderFiles[i]).file != mmOf(db.olderFiles[j]).file
+//@   ensures [unlocked] !db.mu.heldW && !db.mu.heldR
+//@   at utils.CopyDir assert [copy-under-the-write-lock] db.mu.heldW && !called("(*sync.RWMutex).Unlock")
+//@   at utils.CopyDir assert [only-the-lock-file-is-left-out] arg0 == db.options.DirPath && arg1 == dir && len(arg2) == 1 && arg2[0] == datafile.FileLockSuffix
+//@   at utils.CopyDir assert [every-mapped-file-has-its-logical-size] db.options.FileIOType == fio.MemoryMap ==> trimmed(db.activeFile) && (forall id :: {db.olderFiles[id]} has(db.olderFiles, id) ==> trimmed(db.olderFiles[id]))
+//@   modifies db.mu.heldW, type:fio.MMap.endOff, type:fio.MMap.activeMap, type:os.File.fsz, type:os.File.fdur
+//@   loop 1
+//@     invariant [trimmed-so-far] db.mu.heldW && !called("(*sync.RWMutex).Unlock") && db.options.FileIOType == fio.MemoryMap && trimmed(db.activeFile) && (forall id :: {db.olderFiles[id]} seen(id) ==> has(db.olderFiles, id) && trimmed(db.olderFiles[id]))
+//@     invariant [kept] db.activeFile == old(db.activeFile) && db.olderFiles == old(db.olderFiles) && isMapped(db.activeFile) && (forall id :: {db.olderFiles[id]} has(db.olderFiles, id) ==> db.olderFiles[id] != nil && isMapped(db.olderFiles[id]) && mmOf(db.olderFiles[id]) != mmOf(db.activeFile) && mmOf(db.olderFiles[id]).file != mmOf(db.activeFile).file)
